@@ -10,7 +10,7 @@ echo "== files changed in $w since $base (committed + uncommitted):"
 echo "== copying"
 while read -r f; do
   case "$f" in
-    evidence/$id.json|props/$id.json|extract/facts/$id.json|known_findings.d/$id.json|harness/cmd/$low/*|lean/Agd/Model/*|lean/Agd/Lemmas/*|lean/Agd/Props/$id.lean|lean/Agd/Tie/$id.lean|lean/Agd/Driver/$id.lean|corpus/$id/*)
+    evidence/$id.json|props/$id.json|extract/facts/$id.json|known_findings.d/$id.json|harness/cmd/$low/*|lean/Agd/Model/*|lean/Agd/Lemmas/*|lean/Agd/Props/$id.lean|lean/Agd/Tie/$id.lean|lean/Agd/Tie/Tr$id.lean|extract/translate/$id.json|lean/Agd/Driver/$id.lean|corpus/$id/*)
       if [ -f "$w/$f" ]; then mkdir -p "/verif/$(dirname "$f")"; cp "$w/$f" "/verif/$f"; echo "  copied $f"; fi ;;
     *) echo "  SKIPPED (out of scope): $f" ;;
   esac
